@@ -267,6 +267,19 @@ fn gen_train_in(rng: &mut Rng, bare_refs: bool) -> TrainIn {
     }
     let same = rng.chance(1, 4);
     let mut templates = gen_templates(rng, same);
+    if rng.chance(1, 6) {
+        // more than 8 bigram templates: the connectors keep 8 feature ids per SIMD vector, so the 9th
+        // and later templates live in a second vector (raw) / in the pre-summed matrix part (dual)
+        let want = 9 + rng.below(3);
+        let mut k = templates["left"].as_array().unwrap().len();
+        while k < want {
+            let l = crate::trainer_cases::gen_template(rng, &format!("B{k}:"), false);
+            let r = crate::trainer_cases::gen_template(rng, &format!("B{k}:"), false);
+            templates["left"].as_array_mut().unwrap().push(l);
+            templates["right"].as_array_mut().unwrap().push(r);
+            k += 1;
+        }
+    }
     if bare_refs && rng.chance(1, 2) {
         // a bigram template whose sides are single references: its expansion can be exactly "*"
         // (the placeholder of absent / pruned features) - the input class of known finding F21
@@ -490,7 +503,9 @@ pub fn cli_train(a: &HashMap<String, String>) -> i32 {
     let mut rng = Rng::new(seed ^ 0xC7A1);
     let mut evs: Vec<Value> = vec![];
     let run = |bin: &str, args: &[String]| -> bool {
-        Command::new(format!("{bins}/{bin}")).args(args).stdin(Stdio::null()).stdout(Stdio::null()).stderr(Stdio::null()).status().map(|s| s.success()).unwrap_or(false)
+        let mut cmd = Command::new(format!("{bins}/{bin}"));
+        cmd.args(args);
+        crate::progress::run_tool(cmd, None).0
     };
     for i in 0..n {
         let ti = gen_train_in(&mut rng, false);
